@@ -94,3 +94,21 @@ def dfs(run, on_execution, bound=None, max_executions=None):
             for alt in range(fan - 1, 0, -1):
                 stack.append(x.choices[:i] + [alt])
     return n, False
+
+
+def hidden_attrs(obj, skip=()):
+    """(name, repr) of every attribute an object keeps in its __dict__ or in slots, except the named ones: for canonical state
+    keys, so that state kept beside the documented containers is not merged away."""
+    names = set(getattr(obj, "__dict__", {}))
+    for cls in type(obj).__mro__:
+        sl = cls.__dict__.get("__slots__", ())
+        names.update([sl] if isinstance(sl, str) else sl)
+    out = []
+    for n in sorted(names):
+        if n in skip or n in ("__dict__", "__weakref__"):
+            continue
+        try:
+            out.append((n, repr(getattr(obj, n))))
+        except AttributeError:
+            out.append((n, "<unset>"))
+    return tuple(out)
